@@ -54,6 +54,14 @@ func (f *Func) canon(e ast.Expr, depth int) string {
 					return f.canon(d, depth+1)
 				}
 			}
+			if depth < 5 {
+				if c, idx := f.UniqueCallDef(x); c != nil {
+					if idx == 0 {
+						return f.canon(c, depth+1)
+					}
+					return fmt.Sprintf("%s#%d", f.canon(c, depth+1), idx)
+				}
+			}
 			if rx := f.rangeSource(ov); rx != nil && depth < 5 {
 				return "$elem(" + f.canon(rx, depth+1) + ")"
 			}
